@@ -231,6 +231,7 @@ def run_spline(t):
             for k in evals:
                 s.add('sp.seg S 0 tl', k, 'junk%d' % k)
                 s.add('sp.eval S tg', k, 'junkg%d' % k)
+            s.add('sp.trajref HELD S')
             s.add('sp.traj OLD S ref')
             for how in ('copy', 'ppoly', 'ppolycopy'):
                 s.add('sp.traj OLD%s S %s' % (how, how))
@@ -249,6 +250,7 @@ def run_spline(t):
                 for i in range(N1):
                     s.add('sp.seg S', i, 'tl', k, 'n_%d_%d' % (i, k))
                     s.add('sp.seg F', i, 'tl', k, 'f_%d_%d' % (i, k))
+                    s.add('pp.seg HELD idx', i, 'tl', k, 'held_%d_%d' % (i, k))
             for k in (0, 1):
                 for i in range(N0):
                     s.add('pp.seg OLD idx', i, 'tl', k, 'old_%d_%d' % (i, k))
@@ -269,6 +271,7 @@ def run_spline(t):
                     for i in range(N1):
                         for dd in range(d):
                             sc.uf_eq('after update: piece %d order %d [%d] == fresh spline' % (i, k, dd), 'n_%d_%d.%d' % (i, k, dd), 'f_%d_%d.%d' % (i, k, dd))
+                            sc.uf_eq('a reference to getTrajectory() obtained before the update reflects the update: piece %d order %d [%d]' % (i, k, dd), 'held_%d_%d.%d' % (i, k, dd), 'f_%d_%d.%d' % (i, k, dd))
                 for k in (0, 1):
                     for i in range(N0):
                         for dd in range(d):
